@@ -220,7 +220,9 @@ func c02Pipeline(ctx *Ctx, r *Rng) {
 				}
 			}
 		}
-		if late && endsInText {
+		if late && (endsInText || c.nested[target]) {
+			// a top-level TYPE at the end of a file that holds the CHILDREN of a directive ends that directive's
+			// context: what follows the INCLUDE in the including file would be rejected first
 			continue
 		}
 		if late {
